@@ -340,6 +340,42 @@ static void containment_and_accuracy(unsigned long long& unit)
 				ld se = fmax * vol / 2 / sqrtl(20000.0L);
 				if(!(fabsl(sh->value - ex) <= 6 * se)) fail("frontend", key, "estimate_outside_six_standard_errors", "estimate " + mc::dec(sh->value) + " exact " + mc::dec((double)ex));
 			}
+	// the spherical front end with the Monte-Carlo method names: shells that do not start at the origin, full and partial angular ranges;
+	// every vector handed to the integrand lies in the requested shell and cone, the value is within six standard errors
+	for(const char* m : {"Monte-Carlo", "Vegas", "Miser"})
+		for(int cfg = 0; cfg < 4; cfg++)
+		{
+			if(!mc::mine(unit++)) continue;
+			const double R1[4] = {1.0, 0.0, 2.0, 0.5}, R2[4] = {2.0, 1.5, 2.5, 3.0}, C1[4] = {-1, -1, 0.25, -0.5}, C2[4] = {1, 1, 0.75, 0.0}, P1[4] = {0, 0, 1.0, 3.0}, P2[4] = {2 * M_PI, 2 * M_PI, 2.5, 6.0};
+			double r1 = R1[cfg], r2 = R2[cfg], c1 = C1[cfg], c2 = C2[cfg], p1 = P1[cfg], p2 = P2[cfg];
+			std::string key = std::string("spherical_frontend,") + m + ",r=" + mc::dec(r1) + ".." + mc::dec(r2) + ",cos=" + mc::dec(c1) + ".." + mc::dec(c2) + ",phi=" + mc::dec(p1) + ".." + mc::dec(p2);
+			sh->died = 1;
+			std::string ms = m;
+			bool ok = in_child([&](Digest*) {
+				long long evals = 0, outside = 0;
+				g_seed = 3;
+				auto f = [&](libphysica::Vector v) {
+					evals++;
+					double r = v.Norm(), ct = r > 0 ? v[2] / r : 0, ph = std::atan2(v[1], v[0]);
+					if(ph < 0) ph += 2 * M_PI;
+					double e = 1e-9;
+					if(!(v.Size() == 3 && r >= r1 * (1 - e) && r <= r2 * (1 + e) && ct >= c1 - e && ct <= c2 + e && (r == 0 || std::sqrt(1 - ct * ct) < 1e-7 || (ph >= p1 - e && ph <= p2 + e)))) outside++;
+					return 1.5 + 0.5 * r * r;
+				};
+				double v = Integrate_3D(f, r1, r2, c1, c2, p1, p2, ms, 20000);
+				*sh = Res{v, evals, outside, 0, 0};
+			}, nullptr, 300);
+			mc::count("evaluations", 1);
+			mc::count("transitions", 1);
+			if(!ok || sh->died) { fail("frontend", key, "terminated_process", "ended the process"); continue; }
+			if(sh->outside) fail("frontend", key, "vector_outside_the_requested_shell_or_cone", std::to_string(sh->outside) + " of " + std::to_string(sh->evals) + " vectors lie outside r, cos(theta), phi ranges");
+			ld ang = ((ld)c2 - c1) * ((ld)p2 - p1);
+			ld ex = ang * (1.5L * (powl(r2, 3) - powl(r1, 3)) / 3 + 0.5L * (powl(r2, 5) - powl(r1, 5)) / 5);
+			// integrand of the underlying box integral: r^2 (1.5 + 0.5 r^2), between its values at r1 and r2
+			ld gmax = (ld)r2 * r2 * (1.5L + 0.5L * r2 * r2), gmin = (ld)r1 * r1 * (1.5L + 0.5L * r1 * r1);
+			ld se = (gmax - gmin) / 2 * ang * (r2 - r1) / sqrtl(20000.0L);
+			if(!(fabsl(sh->value - ex) <= 6 * se)) fail("frontend", key, "estimate_outside_six_standard_errors", "estimate " + mc::dec(sh->value) + " exact " + mc::dec((double)ex) + " (6 se = " + mc::dec((double)(6 * se)) + ")");
+		}
 	// front ends called from inside an integrand of a front end (an integral over an integral): both levels stay inside their own
 	// rectangles; the inner integrand is a constant (integrated exactly), so the outer value is known
 	for(const char* mo : {"Monte-Carlo", "Vegas", "Miser"})
